@@ -378,6 +378,9 @@ class Check:
         os.makedirs(REPLAYS, exist_ok=True)
         wall = time.time() - self.t0
         cov = dict(self.cov)
+        for k, v in self.notes.items():
+            if k in ("programs", "obligations", "discharged", "disagreements_checked", "states", "transitions", "evaluations", "distinct_nontrivial") and not isinstance(v, int):
+                raise ToolError("note %r would shadow a typed coverage key of the evidence schema" % k)
         cov.update(self.notes)
         cov["known_findings_hit"] = sorted(self.known_hit)
         cov["model_drift"] = [{"key": k, "what": v[0], "count": v[1]} for k, v in sorted(self.drifts.items())]
